@@ -48,6 +48,7 @@ func rulesC03(c *Ctx) {
 	c03HalfOpenTable(c)
 	c03Constructors(c)
 	c03Stats(c)
+	c03Metrics(c)
 	c03Clock(c)
 	c04RecordInternals(c)
 	c04HalfOpenPermits(c)
@@ -1258,5 +1259,197 @@ func c03Clock(c *Ctx) {
 	c.Floor("static calls scanned in circuitbreaker", n, 40)
 	if ok {
 		c.Ok("circuitbreaker#clock", "", fmt.Sprintf("%d static calls: none to time.Now/Since/Until (time is read through config.clock only)", n))
+	}
+}
+
+// c03Metrics: the metrics / delay API delegates to the matching accessor of the current state, the rate
+// formulas and the stats factory are as documented.
+func c03Metrics(c *Ctx) {
+	c.Rule("metrics")
+	for api, inner := range map[string]string{"Executions": "executionCount", "Failures": "failureCount", "FailureRate": "failureRate", "Successes": "successCount", "SuccessRate": "successRate",
+		"State": "state", "RemainingDelay": "remainingDelay"} {
+		fn := c.P.Func("circuitbreaker.(*circuitBreaker)." + api)
+		if fn == nil {
+			c.Unresolved("circuitbreaker.(*circuitBreaker)."+api, "not found")
+			continue
+		}
+		ev := NewEvaluator(c.P, EvalConfig{Pure: func(e *Event) bool { return false }})
+		ok := true
+		ps := ev.Run(fn)
+		st := ev.LoadField(ev.NewState(), ev.Param(fn, fn.Params[0].Name()), "state")
+		for _, p := range ps {
+			mid, env := lockEnvelope(p, "mtx")
+			if !env || len(mid) != 1 || !isCall(mid[0], inner) || mid[0].Recv != st || p.Exit != ExitReturn || p.Rets[0] != mid[0].Res[0] {
+				ok = false
+				c.Fail(c.fn(fn), c.P.FuncPos(fn), api+"() must be, under the breaker's mutex, exactly the current state's "+inner+"()", pathTrace(ev, p))
+			}
+		}
+		if ok && len(ps) > 0 {
+			c.Ok(c.fn(fn), c.P.FuncPos(fn), "Lock; defer Unlock; state."+inner+"()")
+		}
+	}
+	for api, want := range map[string]string{"IsOpen": "OpenState", "IsHalfOpen": "HalfOpenState", "IsClosed": "ClosedState"} {
+		fn := c.P.Func("circuitbreaker.(*circuitBreaker)." + api)
+		if fn == nil {
+			c.Unresolved("circuitbreaker.(*circuitBreaker)."+api, "not found")
+			continue
+		}
+		ev := NewEvaluator(c.P, EvalConfig{DecideReturns: true, Opaque: map[string]bool{"State": true}, Pure: func(e *Event) bool { return e.Method == "State" }})
+		ts := ev.TS
+		ok := true
+		sc := stateConst(c, ts, want)
+		ps := ev.Run(fn)
+		for _, p := range ps {
+			stc := eventsWhere(p, func(e *Event) bool { return isCall(e, "State") })
+			if len(stc) != 1 || sc == nil || p.State.Facts.Truth(ts, p.Rets[0]) != p.State.Facts.Truth(ts, ts.Cmp("==", stc[0].Res[0], sc)) || p.State.Facts.Truth(ts, p.Rets[0]) == triU {
+				ok = false
+				c.Fail(c.fn(fn), c.P.FuncPos(fn), api+"() must be State() == "+want, pathTrace(ev, p))
+			}
+		}
+		if ok && len(ps) > 0 {
+			c.Ok(c.fn(fn), c.P.FuncPos(fn), "State() == "+want)
+		}
+	}
+	// state identities and remaining delay
+	for typ, want := range map[string]string{"closedState": "ClosedState", "openState": "OpenState", "halfOpenState": "HalfOpenState"} {
+		fn := c.P.Func("circuitbreaker.(*" + typ + ").state")
+		if fn == nil {
+			c.Unresolved("circuitbreaker.(*"+typ+").state", "not found")
+			continue
+		}
+		ev := NewEvaluator(c.P, EvalConfig{})
+		ok := true
+		sc := stateConst(c, ev.TS, want)
+		for _, p := range ev.Run(fn) {
+			if p.Exit != ExitReturn || p.Rets[0] != sc {
+				ok = false
+				c.Fail(c.fn(fn), c.P.FuncPos(fn), typ+".state() must be "+want, pathTrace(ev, p))
+			}
+		}
+		if ok {
+			c.Ok(c.fn(fn), c.P.FuncPos(fn), want)
+		}
+		rd := c.P.Func("circuitbreaker.(*" + typ + ").remainingDelay")
+		if rd == nil {
+			c.Unresolved("circuitbreaker.(*"+typ+").remainingDelay", "not found")
+			continue
+		}
+		ev2 := NewEvaluator(c.P, EvalConfig{})
+		ts := ev2.TS
+		ok2 := true
+		for _, p := range ev2.Run(rd) {
+			r := p.Rets[0]
+			if typ != "openState" {
+				if !isZeroInt(r) {
+					ok2 = false
+					c.Fail(c.fn(rd), c.P.FuncPos(rd), "a breaker that is not open has no remaining delay (0)", pathTrace(ev2, p))
+				}
+				continue
+			}
+			s := ev2.Param(rd, rd.Params[0].Name())
+			start, delay := ev2.LoadField(ev2.NewState(), s, "startTime"), ev2.LoadField(ev2.NewState(), s, "delay")
+			var now *T
+			for _, e := range p.Events() {
+				if isCall(e, "CurrentUnixNano") {
+					now = e.Res[0]
+				}
+			}
+			good := now != nil && r.Op == "app" && r.Aux == "max" && len(r.Args) == 2
+			if good {
+				other := r.Args[0]
+				if isZeroInt(other) {
+					other = r.Args[1]
+				}
+				good = other == ts.Sub(delay, ts.Sub(now, start, delay.Typ), delay.Typ)
+			}
+			if !good {
+				ok2 = false
+				c.Fail(c.fn(rd), c.P.FuncPos(rd), "the remaining delay of an open breaker must be max(0, delay − (clock − openedAt))", pathTrace(ev2, p))
+			}
+		}
+		if ok2 {
+			c.Ok(c.fn(rd), c.P.FuncPos(rd), "remaining delay as documented")
+		}
+	}
+	// stats factory
+	if fn := c.P.Func("circuitbreaker.newStats"); fn == nil {
+		c.Unresolved("circuitbreaker.newStats", "not found")
+	} else {
+		ev := NewEvaluator(c.P, EvalConfig{})
+		ts := ev.TS
+		ok := true
+		cfg := ev.Param(fn, fn.Params[0].Name())
+		period := ev.LoadField(ev.NewState(), cfg, "failureThresholdingPeriod")
+		timeBased := ev.Param(fn, "supportsTimeBased")
+		for _, p := range ev.Run(fn) {
+			tb := triAnd(p.State.Facts.Truth(ts, timeBased), p.State.Facts.Truth(ts, ts.Cmp("!=", period, ts.LinConst(0, period.Typ))))
+			nt := eventsWhere(p, func(e *Event) bool { return isCall(e, "newTimedStats") })
+			nc := eventsWhere(p, func(e *Event) bool { return isCall(e, "newCountingStats") })
+			switch tb {
+			case triT:
+				if len(nt) != 1 || len(nc) != 0 || nt[0].Args[1] != period || loadedField(nt[0].Args[2]) != "clock" || p.Rets[0] != nt[0].Res[0] {
+					ok = false
+					c.Fail(c.fn(fn), c.P.FuncPos(fn), "time-based thresholding (supported ∧ period≠0) must use timed stats over the configured period and clock", pathTrace(ev, p))
+				}
+			case triF:
+				if len(nc) != 1 || len(nt) != 0 || nc[0].Args[0] != ev.Param(fn, "capacity") || p.Rets[0] != nc[0].Res[0] {
+					ok = false
+					c.Fail(c.fn(fn), c.P.FuncPos(fn), "count-based thresholding must use counting stats of the given capacity", pathTrace(ev, p))
+				}
+			default:
+				ok = false
+				c.Fail(c.fn(fn), c.P.FuncPos(fn), "the kind of stats does not depend on (time-based supported ∧ thresholding period configured)", pathTrace(ev, p))
+			}
+		}
+		if ok {
+			c.Ok(c.fn(fn), c.P.FuncPos(fn), "timed stats iff supported ∧ period≠0, else counting stats of the capacity")
+		}
+	}
+	// rates: 0 when empty, else round(part / total * 100)
+	for _, sp := range []struct{ fn, part string }{{"circuitbreaker.(*countingStats).failureRate", "failures"}, {"circuitbreaker.(*countingStats).successRate", "successes"},
+		{"circuitbreaker.(*timedStats).failureRate", "failures"}, {"circuitbreaker.(*timedStats).successRate", "successes"}} {
+		fn := c.P.Func(sp.fn)
+		if fn == nil {
+			c.Unresolved(sp.fn, "not found")
+			continue
+		}
+		ev := NewEvaluator(c.P, EvalConfig{Opaque: map[string]bool{"executionCount": true}})
+		ts := ev.TS
+		ok := true
+		sawZero, sawRate := false, false
+		for _, p := range ev.Run(fn) {
+			if p.Exit != ExitReturn {
+				continue
+			}
+			r := p.Rets[0]
+			if isZeroInt(r) {
+				sawZero = true
+				continue
+			}
+			sawRate = true
+			rd := eventsWhere(p, func(e *Event) bool { return isCall(e, "Round") })
+			good := len(rd) == 1 && r.Contains(rd[0].Res[0])
+			if good {
+				a := rd[0].Args[0] // (part/total)*100
+				good = a.Op == "bin" && a.Aux == "*" && (a.Args[0].String() == "100" || a.Args[1].String() == "100")
+				if good {
+					q := a.Args[0]
+					if q.String() == "100" {
+						q = a.Args[1]
+					}
+					good = q.Op == "bin" && q.Aux == "/" && strings.Contains(q.Args[0].String(), sp.part) && !strings.Contains(q.Args[1].String(), "100")
+				}
+			}
+			if !good {
+				ok = false
+				c.Fail(sp.fn, c.P.FuncPos(fn), "a rate must be round("+sp.part+" / executions × 100), and 0 when there are no executions", pathTrace(ev, p))
+			}
+			_ = ts
+		}
+		if ok && sawZero && sawRate {
+			c.Ok(sp.fn, c.P.FuncPos(fn), "0 when empty, else round("+sp.part+"/executions×100)")
+		} else if ok {
+			c.Fail(sp.fn, c.P.FuncPos(fn), "rate lacks the empty or the non-empty case", "")
+		}
 	}
 }
